@@ -113,6 +113,9 @@ def run(chk, repo, tier):
                '; '.join(f'{e.data["callee"]}: modes={fmt(v)[:60]}' for e, v in mvals), frem.loc(ref.node))
 
     # ---------------------------------------------------------------- C12-d
+    # the coefficient vector is indexed by Noll number: the map from the number to (m, n) is one to one on every row
+    from .c11 import noll_rules as _noll_rules
+    _noll_rules(chk, repo, 'C12-d')
     fcomp = repo.func('zernike.zernike_compose')
     _, paths, _ = analyse(repo, fcomp)
     ok, det = False, 'no accumulation of coeff*zernike(...) found'
